@@ -82,7 +82,16 @@ static void run_context(hz::Ctx &ctx, const LineCase &c, bool nested = false) {
   if (!nested && !ctx.take()) return;
   std::string id = "K|" + serialize(c); if (!ctx.begin(id, text(c.it))) return;
   const char *cl = CTX[hz::fnv(id) % 16];
-  auto alone = al::assemble(text(c.it), c.combo), first = al::assemble(cl, c.combo);
+  auto alone = al::assemble(text(c.it), c.combo);
+  // the line in front of / next to text that is no code: a directive, a label or a comment behind it (also further down),
+  // a comment on the line itself - with words that mean something elsewhere (section, global, register and mnemonic names)
+  { static const char *AFTER[] = {"\nsection .data\n", "\nglobal main\n", "\n; the global section follows\n", "\nnext_label:\n", " ; bump the global counter\n", " ;section\n", "\n\n\n  SECTION .text\n", " ; mov rax, rbx : x\n", "\nnop\nnop\n; see section 3\n", "\r\n%define global 1\r\n", " ; GLOBAL\n\tglobal f\n", "\n;\n"};
+    unsigned k = (unsigned)((hz::fnv(id) >> 17) % 12); std::string t2 = text(c.it) + AFTER[k]; auto r2 = al::assemble(t2, c.combo);
+    size_t extra = k == 8 ? 2 : 0;   // two nops follow in variant 8
+    ctx.cls("part:in-front-of-non-code-text");
+    if (r2.rc != alone.rc || (alone.rc == 0 && (r2.bytes.size() != alone.bytes.size() + extra || memcmp(r2.bytes.data(), alone.bytes.data(), alone.bytes.size())))) {
+      hz::Failure f = make_failure(c, "context-dependent", "followed by " + hz::jesc(AFTER[k]) + " the line gives rc " + std::to_string(r2.rc) + " and " + x86::hex(r2.bytes.data(), r2.bytes.size()) + " ; alone rc " + std::to_string(alone.rc) + " and " + x86::hex(alone.bytes.data(), alone.bytes.size())); f.caseid = id; f.tags.push_back("group:context"); ctx.fail(f); return; } }
+  auto first = al::assemble(cl, c.combo);
   auto both = al::assemble(std::string(cl) + "\n" + text(c.it) + "\n", c.combo);
   ctx.cls("part:after-context-line"); ctx.nontrivial(id);
   if (first.rc != 0) return;
@@ -372,7 +381,7 @@ void prop_c05(hz::Ctx &ctx) {
       if (kw == 2 && !has_rel32(r.mn)) continue;  // "long" only where a rel32 form exists
       for (int64_t d : rels) for (int hex = 0; hex < 4; hex++) {
         // spellings: decimal, hex, and both with leading zeros (for the small and boundary displacements and a quarter of the rest)
-        int pad = 0; if (hex >= 2) { if (!((d >= -129 && d <= 128) || ((uint64_t)d * 2654435761ULL >> 7) % 4 == 0)) continue; pad = ndigits((uint64_t)(d < 0 ? -d : d), hex == 3) + 1 + (int)(((uint64_t)d >> 1) % 3); }
+        int pad = 0; if (hex >= 2) { if (!((d >= -129 && d <= 128) || ((uint64_t)d * 2654435761ULL >> 7) % 4 == 0)) continue; pad = ndigits((uint64_t)(d < 0 ? -d : d), hex == 3) + 1 + (int)(((uint64_t)d >> 1) % 3); if (hex == 3 && ((uint64_t)d >> 3) % 3 == 0) pad = 15 + (int)(((uint64_t)d >> 5) % 4); /* 15..18 hex digits */ }
         LineCase c; c.it = base_intent(r); c.it.brkw = kw; c.it.ops.push_back(wrel(d, (hex & 1) == 1, pad));
         c.combo = (int)((hz::fnv(r.mn) + (uint64_t)d + ctx.seed) % 12);
         if (!ctx.take()) continue;
